@@ -742,3 +742,69 @@ def unalias_self(tree: ast.AST, keep=None) -> int:
         fn.body = [T().visit(st) for st in fn.body]
         n_done += len(mapping)
     return n_done
+
+
+# ---------------------------------------------------------------------------------------------------------------------
+# New single-use temporaries: `t = E` immediately followed by `return t` / `yield t` / `<simple>.m(..., t, ...)` /
+# `x = <simple>.m(t)`, with `t` a local the confirmed tree's function does not have and used nowhere else, is read as the
+# statement with E in place of t.
+
+
+def _simple(e):
+    if isinstance(e, (ast.Name, ast.Constant)):
+        return True
+    if isinstance(e, ast.Attribute):
+        return _simple(e.value)
+    if isinstance(e, ast.Subscript):
+        return _simple(e.value) and _simple(e.slice)
+    return False
+
+
+def inline_single_use_temps(fn, keep=frozenset()) -> int:
+    loads, stores = Counter(), Counter()
+    for x in ast.walk(fn):
+        if isinstance(x, ast.Name):
+            (loads if isinstance(x.ctx, ast.Load) else stores)[x.id] += 1
+        elif isinstance(x, ast.arg):
+            stores[x.arg] += 1
+        elif isinstance(x, (ast.Global, ast.Nonlocal)):
+            for nm in x.names:
+                stores[nm] += 2
+    n_done = 0
+    for node in ast.walk(fn):
+        if isinstance(node, (ast.FunctionDef, ast.AsyncFunctionDef, ast.ClassDef, ast.Lambda)) and node is not fn:
+            continue
+        for fld in ('body', 'orelse', 'finalbody'):
+            blk = getattr(node, fld, None)
+            if not (isinstance(blk, list) and blk and isinstance(blk[0], ast.stmt)):
+                continue
+            i = 0
+            while i + 1 < len(blk):
+                st, nx = blk[i], blk[i + 1]
+                if isinstance(st, ast.Assign) and len(st.targets) == 1 and isinstance(st.targets[0], ast.Name):
+                    t = st.targets[0].id
+                    if t not in keep and stores[t] == 1 and loads[t] == 1:
+                        slot = None  # (container, field or index) where Name(t) sits in nx
+                        if isinstance(nx, ast.Return) and isinstance(nx.value, ast.Name) and nx.value.id == t:
+                            slot = (nx, 'value')
+                        elif isinstance(nx, ast.Expr) and isinstance(nx.value, (ast.Yield, ast.Await)) and isinstance(nx.value.value, ast.Name) and nx.value.value.id == t:
+                            slot = (nx.value, 'value')
+                        else:
+                            call = nx.value if isinstance(nx, (ast.Expr, ast.Assign)) else None
+                            if isinstance(call, ast.Await):
+                                call = call.value
+                            if isinstance(call, ast.Call) and _simple(call.func) and not call.keywords and all(_simple(a) for a in call.args):
+                                hits = [k for k, a in enumerate(call.args) if isinstance(a, ast.Name) and a.id == t]
+                                if len(hits) == 1 and (not isinstance(nx, ast.Assign) or all(_simple(tg) or isinstance(tg, ast.Tuple) for tg in nx.targets)):
+                                    slot = (call.args, hits[0])
+                        if slot is not None:
+                            cont, key = slot
+                            if isinstance(cont, list):
+                                cont[key] = st.value
+                            else:
+                                setattr(cont, key, st.value)
+                            del blk[i]
+                            n_done += 1
+                            continue
+                i += 1
+    return n_done
